@@ -52,3 +52,13 @@ def replay_tc(p,repo):
   if not v: print("the contract holds: NOT reproduced"); return 0
   for f in v: print("FAILED     :",f)
   return 1
+
+def replay_tr(p,repo):
+  if repo not in sys.path: sys.path.insert(0,repo)
+  from zoo import trcheck
+  f={'portmap':trcheck.check_portmap,'names':trcheck.check_names,'determinism':trcheck.check_determinism}[p['which']]
+  print("check      :",p['which'],"(see zoo/trcheck.py)")
+  r=f(repo)
+  if not r: print("the contract holds: NOT reproduced"); return 0
+  for x in r: print("FAILED     :",x)
+  return 1
